@@ -142,10 +142,15 @@ func (m *AppPlacementManager) PlaceApplication(app *objects.Application) error {
 		// We have the recovery queue bail out: only if we are doing forced placement
 		// Recovery rule is last in the list. Recovery queue cannot be returned by other rules.
 		// We do not want to trigger any checks for this queue.
-		if queueName == common.RecoveryQueueFull && app.IsCreateForced() {
-			log.Log(log.SchedApplication).Info("Placing application in recovery queue",
-				zap.String("application", app.ApplicationID))
-			break
+		if queueName == common.RecoveryQueueFull {
+			if app.IsCreateForced() {
+				log.Log(log.SchedApplication).Info("Placing application in recovery queue",
+					zap.String("application", app.ApplicationID))
+				break
+			}
+			// the recovery queue is reserved for forced placement: not a valid result for any other application
+			queueName = ""
+			continue
 		}
 		// queueName returned make sure ACL allows access and set the queueName in the app
 		queue := m.queueFn(queueName)
